@@ -2,6 +2,7 @@
 PROPS = {}
 PROPS["C02"] = {
     "level": "model_checking",
+    "kani": [{"name": "k_next_version_rule"}],
     "harnesses": [
         {"name": "c02_seq", "covers": ["setsafe.refused", "setsafe.accepted"]},
         {"name": "c02_race2", "covers": ["race.one-winner"]},
@@ -67,6 +68,7 @@ PROPS["C17"] = {
 }
 PROPS["C19"] = {
     "level": "model_checking",
+    "kani": [{"name": "k_next_version_rule", "thorough_only": True}],
     "harnesses": [
         {"name": "c19_seq", "params": {"quick": {"writes": 3}, "thorough": {"writes": 5}}, "covers": ["newer.stale-write-seen"]},
         {"name": "c19_race2", "covers": ["newer.race-a-last", "newer.race-b-last"]},
